@@ -1,0 +1,6 @@
+//go:build !verif
+
+package logic
+
+// verifTap is a no-op unless grip is built with the `verif` tag (see verif_on.go).
+func verifTap(proc interface{}, ev string, args ...interface{}) {}
